@@ -16,6 +16,7 @@
 #endif
 #include <z3++.h>
 #include <algorithm>
+#include <regex>
 
 using namespace prob;
 
@@ -766,6 +767,27 @@ namespace
   void case_prob(pbt::Tape &t, pbt::Result &r, const pbt::Options &o)
   {
     const std::string &P = o.prop;
+    if (o.kv.count("text"))
+    { // literal program from a replay file (ledger entries that must not depend on the generator): judged on abnormal
+      // termination / leaks by the driver and on the verdict against `expect=solved|unsolvable`
+      std::string all = o.kv.at("text"), text = all, ctext;
+      const std::string sep = "// ---- second read() ----\n";
+      auto at = all.find(sep);
+      if (at != std::string::npos) { text = all.substr(0, at); ctext = all.substr(at + sep.size()); }
+      fprintf(stderr, "-- program (in case the process dies) --\n%s%s-- end of program --\n", text.c_str(), ctext.c_str());
+      Problem none;
+      Outcome out = run(none, text, ctext);
+      std::string verdict = out.verdict == SOLVED ? "solved" : out.verdict == UNSOLVABLE ? "unsolvable" : "rejected";
+      r.render = all + "-- verdict: " + verdict + (out.error.empty() ? "" : " (" + out.error + ")") + "\n";
+      std::string expect = o.get("expect", "");
+      if (!expect.empty() && expect != verdict)
+      {
+        r.violation = true;
+        r.message = "the program has the known verdict `" + expect + "` but the solver reports `" + verdict + "`" + (out.error.empty() ? "" : " (" + out.error + ")");
+      }
+      r.nontrivial = true;
+      return;
+    }
     Problem p;
     Gen g{t, o, p};
     std::string layer = o.get("layer", "L0");
@@ -828,11 +850,13 @@ namespace
         smt::rational upt(un[ui], ud[ui]);
         const bool one_delay = o.has("one_delay_per_tick");
         const bool last_only = o.has("adapt_only_last_pending");
-        g_on_solver = [&t, upt, one_delay, last_only](ratio::solver &s) {
+        const bool counts_unified = o.has("adapt_counts_unified_atoms");
+        g_on_solver = [&t, upt, one_delay, last_only, counts_unified](ratio::solver &s) {
           g_executor.reset(new ratio::executor(s, upt));
           g_erec.reset(new ExecRec(*g_executor, s, t, upt));
           g_erec->one_delay_per_tick = one_delay;
           g_erec->adapt_only_last_pending = last_only;
+          g_erec->adapt_counts_unified = counts_unified;
         };
         g_on_solver_gone = []() { g_erec.reset(); g_executor.reset(); };
         g_after_solve = [&](ratio::solver &s) {
@@ -925,7 +949,54 @@ namespace
       check_objects(p, out, c17);
       if (layer == "L3") check_timelines(p, tl, out, c04, c05, c06, c01, r);
     }
-    else if (out.verdict == UNSOLVABLE)
+    // C02 (c): semantically equivalent formulations get the same verdict
+    if (P == "C02" && (layer == "L0" || layer == "L1") && out.verdict != REJECTED && std::hash<std::string>()(text + ctext) % 3 == 0)
+    {
+      auto hooks_off = [&]() { g_after_solve = nullptr; g_on_solver = nullptr; g_on_solver_gone = nullptr; };
+      hooks_off();
+      // (i) consistent renaming of every generated identifier (they all end in digits; keywords and built-in names do not)
+      static const std::regex idre("\\b(x|k|b|v|c|i|o|f|p_f|A|E|eE)([0-9][0-9_]*)\\b");
+      std::string rt = std::regex_replace(text, idre, "$1$2_q"), rc = std::regex_replace(ctext, idre, "$1$2_q");
+      // (ii) tautologies
+      std::string tt = text + "true;\n" + (p.reals.empty() ? std::string() : p.reals[0] + " <= " + p.reals[0] + " + 1.0;\n") + (p.bools.empty() ? std::string() : p.bools[0] + " -> " + p.bools[0] + ";\n");
+      // (iii) the single-line top-level statements of the second batch in reverse order (they are independent constraints)
+      std::string oc;
+      {
+        std::vector<std::string> lines, singles;
+        std::istringstream is(ctext);
+        std::string ln;
+        int depth = 0;
+        std::vector<int> single_at;
+        while (std::getline(is, ln))
+        {
+          int d0 = depth;
+          for (char ch : ln) depth += ch == '{' ? 1 : ch == '}' ? -1 : 0;
+          if (d0 == 0 && depth == 0 && !ln.empty() && ln.back() == ';' && ln.find("// ----") == std::string::npos) { single_at.push_back((int)lines.size()); singles.push_back(ln); }
+          lines.push_back(ln);
+        }
+        std::reverse(singles.begin(), singles.end());
+        for (size_t k = 0; k < single_at.size(); ++k) lines[single_at[k]] = singles[k];
+        for (auto &l2 : lines) oc += l2 + "\n";
+      }
+      struct Var { const char *name; std::string a, b; };
+      std::vector<Var> vars = {{"identifiers renamed", rt, rc}, {"tautologies added", tt, ctext}};
+      if (oc != ctext && !ctext.empty()) vars.push_back({"independent statements reordered", text, oc});
+      for (auto &vr : vars)
+      {
+        Problem dummy; // the variants are judged by their verdict only
+        Outcome vo = run(dummy, vr.a, vr.b);
+        r.counters["metamorphic_variants"]++;
+        if (vo.verdict != out.verdict)
+        {
+          c02.push_back(std::string("a semantically equivalent formulation (") + vr.name + ") gets the verdict " + (vo.verdict == SOLVED ? "solved" : vo.verdict == UNSOLVABLE ? "unsolvable" : "rejected: " + vo.error) +
+                        " while the original gets " + (out.verdict == SOLVED ? "solved" : "unsolvable") + "\n--- variant ---\n" + vr.a + (vr.b.empty() ? "" : "// ---- second read() ----\n" + vr.b));
+          r.classes.insert("metamorphic variant checked");
+          break;
+        }
+        r.classes.insert("metamorphic variant checked");
+      }
+    }
+    if (out.verdict == UNSOLVABLE)
     {
       if (p.planted)
         c02.push_back("a problem built around a known solution was declared unsolvable (" + out.error + ")");
